@@ -14,6 +14,8 @@ def run(rep):
     u1(rep, w)
     u2(rep, w)
     u3(rep, w)
+    import c10
+    c10.v5(rep, w, 'U4')      # index arithmetic on program-chosen integers cannot overflow (-inf / isize::MIN boundary)
 
 
 def u1(rep, w):
